@@ -279,11 +279,15 @@ SpreadNames(sels, i) ==
   ELSE (IF sels[i].k = "spread" THEN {sels[i].name} ELSE SpreadNames(sels[i].sels, 1)) \cup SpreadNames(sels, i + 1)
 \* work of every fragment, bottom-up: a fragment is added once all fragments it spreads are in the table
 \* (unknown names count as resolved; fragments on a cycle never enter the table)
+\* (TLC keeps [x \in S |-> e] as an unevaluated lambda and would re-walk a fragment at every look-up: the table is
+\*  therefore extended with :> / @@, which store evaluated values)
 RECURSIVE CostTblFrom(_, _, _)
 CostTblFrom(C, tbl, fuel) ==
   LET ready == {n \in FragNames(C) \ DOMAIN tbl : (SpreadNames(Frag(C, n).sels, 1) \cap FragNames(C)) \subseteq DOMAIN tbl} IN
   IF fuel = 0 \/ ready = {} THEN tbl
-  ELSE CostTblFrom(C, [n \in DOMAIN tbl \cup ready |-> IF n \in DOMAIN tbl THEN tbl[n] ELSE Walk(C, Frag(C, n).sels, 1, tbl)], fuel - 1)
+  ELSE LET nm == CHOOSE x \in ready : TRUE
+           w  == Walk(C, Frag(C, nm).sels, 1, tbl)
+       IN CostTblFrom(C, IF DOMAIN tbl = {} THEN nm :> w ELSE tbl @@ (nm :> w), fuel - 1)
 CostTbl(C) == CostTblFrom(C, EmptyTbl, Len(C.doc.frags))
 
 \* FindConflicts: one search from a selection set; [n: calls of find, v: fragments visited so far]
